@@ -1034,7 +1034,7 @@ theorem probeLayer_mounted (cfg : Config) (inuse : List (Bytes × List User)) (f
     `mounted, busy` only if everything configured for it is in place (`FullyMounted`: FHS
     directories, overlay with the parent's build root below and the layer's own upper and
     work directories, every import mounted with the configured source).  Layers that entered
-    in the error state keep it. -/
+    in the error state keep it (their mounts and users are recorded since fix e3cb7aa). -/
 theorem mounted_only_if_fully_mounted_all (cfg : Config) (inuse : List (Bytes × List User))
     (d0 d : Defs) (w w' : World) (hrun : (probeAll cfg inuse d0).run.run w = (.ok d, w'))
     (name : Bytes) (hord : name ∈ d0.order) :
@@ -1045,8 +1045,9 @@ theorem mounted_only_if_fully_mounted_all (cfg : Config) (inuse : List (Bytes ×
   obtain ⟨h1, h2, h3, -, h5⟩ := probeLoop_inv cfg inuse w.fs
     (fun d l => l.state = S_mounted ∨ l.state = S_mounted_busy → FullyMounted cfg w.fs d l)
     (fun d name l l' _ _ hp hm => probeLayer_mounted cfg inuse w.fs d name l l' hp hm)
-    (fun d l he hm => by
-      rcases hm with hm | hm <;> rw [he] at hm <;> simp [S_error, S_mounted, S_mounted_busy] at hm)
+    (fun d name l _ he hm => by
+      have hst : (probeErr cfg inuse d name l).state = l.state := (probeErr_key cfg inuse d name l).2.2.2.2.2.1
+      rcases hm with hm | hm <;> rw [hst, he] at hm <;> simp [S_error, S_mounted, S_mounted_busy] at hm)
     (fun d d' l hk hm hv hs => fullyMounted_transport cfg w.fs d d' l hk hm (hv hs))
     d0.order _ d w w' hloop
   refine ⟨h1, ?_, (sameKeys_refresh d0 m _).trans h2, h5 name hord⟩
